@@ -33,12 +33,13 @@ type Doc struct {
 	Trees     map[string]*Y     `json:"trees,omitempty"` // node trees of the files (tree docs)
 	Label     string            `json:"label,omitempty"`
 	// unit probes
-	Line      int    `json:"line,omitempty"`       // snip: WithLine
-	Raw       []byte `json:"raw,omitempty"`        // snip: the bytes
-	Loc       string `json:"loc,omitempty"`        // loc: include location
-	Name      string `json:"name,omitempty"`       // wild: task name
-	NoRun     bool   `json:"norun,omitempty"`      // skip the dry-run phase
-	DeadlineS int    `json:"deadline_s,omitempty"` // wall-clock bound for this document (default 20 s)
+	Line      int      `json:"line,omitempty"`       // snip: WithLine
+	Raw       []byte   `json:"raw,omitempty"`        // snip: the bytes
+	Loc       string   `json:"loc,omitempty"`        // loc: include location
+	Name      string   `json:"name,omitempty"`       // wild: task name
+	NoRun     bool     `json:"norun,omitempty"`      // skip the dry-run phase
+	Conc      []string `json:"conc,omitempty"`       // concurrency family: run "all" (parallel deps), then these calls with Parallel, right after Setup
+	DeadlineS int      `json:"deadline_s,omitempty"` // wall-clock bound for this document (default 20 s)
 }
 
 // Result is what the implementation did with a Doc.
@@ -92,7 +93,15 @@ var frameRe = regexp.MustCompile(`(?m)^(github\.com/go-task/task/v3[^\s(]*(?:\(\
 // panicSignature: top frame inside go-task (not the harness) + class of the panic message.
 func panicSignature(msg, stack string) string {
 	class := "other"
+	kind := "panic"
+	if strings.HasPrefix(msg, "fatal error:") {
+		kind = "fatal"
+	}
 	switch {
+	case strings.Contains(msg, "concurrent map"):
+		class = "concurrent-map-access"
+	case strings.Contains(msg, "all goroutines are asleep"):
+		class = "deadlock"
 	case strings.Contains(msg, "index out of range"):
 		class = "index-out-of-range"
 	case strings.Contains(msg, "slice bounds out of range"):
@@ -130,7 +139,7 @@ func panicSignature(msg, stack string) string {
 		frame = f
 		break
 	}
-	return "panic:" + frame + ":" + class
+	return kind + ":" + frame + ":" + class
 }
 
 func highlightLines(b []byte) int {
@@ -253,6 +262,42 @@ func runDoc(d *Doc) (res Result) {
 		return
 	}
 	res.Class = "ok"
+
+	// concurrency family: the first lookups of many wildcard tasks happen at the same time
+	// (a fatal error such as "concurrent map writes" cannot be recovered: it ends this process)
+	if len(d.Conc) > 0 {
+		setPhase("conc")
+		ctx, cancel := context.WithTimeout(context.Background(), 15*time.Second)
+		err, p = guard(func() error { return e.Run(ctx, &task.Call{Task: "all"}) })
+		cancel()
+		res.Probes++
+		if p != nil {
+			res.setPanic("conc", p)
+			return
+		}
+		if err != nil {
+			res.ErrCodes[fmt.Sprintf("conc:%d", exitCode(err))]++
+		}
+		e2 := task.NewExecutor(task.WithDir(dir), task.WithStdin(strings.NewReader("")), task.WithStdout(io.Discard),
+			task.WithStderr(io.Discard), task.WithDry(true), task.WithParallel(true))
+		if err, p = guard(e2.Setup); err == nil && p == nil {
+			var calls []*task.Call
+			for _, c := range d.Conc {
+				calls = append(calls, &task.Call{Task: c})
+			}
+			ctx, cancel := context.WithTimeout(context.Background(), 15*time.Second)
+			err, p = guard(func() error { return e2.Run(ctx, calls...) })
+			cancel()
+			res.Probes++
+			if err != nil {
+				res.ErrCodes[fmt.Sprintf("conc:%d", exitCode(err))]++
+			}
+		}
+		if p != nil {
+			res.setPanic("conc", p)
+			return
+		}
+	}
 
 	// probe 3: every task: GetTask, FastCompiledTask, CompiledTask
 	var names []string
